@@ -83,6 +83,35 @@ def contains_cb(r, cb):
     return True
 
 
+def miss_info(r, cb, p):
+    """(part, slop): which part of the result misses the reference ball and whether the gap is below one ulp (of the
+    reference value at precision p).  Used to identify the directed-rounding-slop finding class."""
+    out = []
+    for part, I, ball in (('re', r[0], cb.re), ('im', r[1], cb.im)):
+        if c14.contains_ball(I, ball) is not False:
+            continue
+        lo = Fraction(ball.m - ball.r) * Fraction(2) ** ball.e
+        hi = Fraction(ball.m + ball.r) * Fraction(2) ** ball.e
+        a, b_ = I
+        gap = None
+        try:
+            fa = Fraction(*Q.to_q(a)); fb = Fraction(*Q.to_q(b_))
+        except Exception:
+            out.append((part, False)); continue
+        if hi < fa: gap = fa - hi
+        elif lo > fb: gap = lo - fb
+        else: gap = Fraction(0)
+        mid = abs(Fraction(ball.m) * Fraction(2) ** ball.e)
+        if mid == 0:
+            out.append((part, False)); continue
+        fl = mid.numerator.bit_length() - mid.denominator.bit_length()
+        ulp = Fraction(2) ** (fl - p + 1)
+        out.append((part, bool(gap < ulp and fa <= fb)))
+    if not out:
+        return 'none', False
+    return '+'.join(x[0] for x in out), all(x[1] for x in out)
+
+
 def tasks(tier, seed):
     out = []
     for p in PRECS:
@@ -182,9 +211,15 @@ def t_unary(task):
                 acc.undecided += 1; continue
             acc.nontrivial += 1
             if verdict is False:
-                on_cut_from_below = (name == 'log' and w[1] == 0 and w[0] < 0 and b2 == 0 and b1 < 0)
+                if a1 < 0 and b2 == 0 and b1 < 0: rcl = 'touches-negative-axis-from-below'
+                elif a1 < 0 and b1 < 0 < b2: rcl = 'straddles-negative-axis'
+                elif a1 < 0 and b1 == 0 and b2 > 0: rcl = 'touches-negative-axis-from-above'
+                elif a1 < 0 and b1 == 0 and b2 == 0: rcl = 'on-negative-axis'
+                else: rcl = 'off-cut'
+                part, slop = miss_info(r, cb, p)
+                if rcl == 'on-negative-axis' and a2 > 0: rcl = 'real-interval-straddling-origin'
                 acc.violation(['u', name, rc_s(rc), p, ws(w)], 'mpci_%s(%s, prec=%d) = %s misses %s(%s)' % (name, rc_s(rc), p, r, name, ws(w)), fn=name, kind='ball',
-                              cut_from_below=bool(on_cut_from_below))
+                              rect=rcl, part=part, slop=slop)
     acc.sample(['mpci_' + name, rc_s(RC[100]), p])
     return acc
 
@@ -238,7 +273,12 @@ def t_gamma(acc, RC, p):
                 acc.nontrivial += 1
                 if outside:
                     region = 'left-strip' if (a1 < Fraction(3, 2) and max(abs(b1), abs(b2)) <= 2) else 'other'
-                    acc.violation(['g', name, rc_s(rc), p, ws(w)], 'mpci_%s(%s, prec=%d) = %s misses %s(%s)' % (name, rc_s(rc), p, r, name, ws(w)), fn=name, kind='gamma', region=region)
+                    if a1 < 0 and b2 == 0 and b1 < 0: rcl = 'touches-negative-axis-from-below'
+                    elif a1 < 0 and b1 < 0 < b2: rcl = 'straddles-negative-axis'
+                    elif a1 < 0 and b1 == 0 and b2 > 0: rcl = 'touches-negative-axis-from-above'
+                    elif a1 < 0 and b1 == 0 and b2 == 0: rcl = 'on-negative-axis'
+                    else: rcl = 'off-cut'
+                    acc.violation(['g', name, rc_s(rc), p, ws(w)], 'mpci_%s(%s, prec=%d) = %s misses %s(%s)' % (name, rc_s(rc), p, r, name, ws(w)), fn=name, kind='gamma', region=region, rect=rcl)
     acc.sample(['mpci_gamma', rc_s(RC[300]), p])
     return acc
 
@@ -301,7 +341,7 @@ def t_pow(task):
                         acc.undecided += 1; continue
                     acc.nontrivial += 1
                     if verdict is False:
-                        acc.violation(['p', rc_s(rc), rc_s(rd), p, ws(wx), ws(wy)], 'mpci_pow(%s, %s, prec=%d) = %s misses (%s)**(%s)' % (rc_s(rc), rc_s(rd), p, r, ws(wx), ws(wy)), fn='pow', kind='ball', cut_from_below=False)
+                        acc.violation(['p', rc_s(rc), rc_s(rd), p, ws(wx), ws(wy)], 'mpci_pow(%s, %s, prec=%d) = %s misses (%s)**(%s)' % (rc_s(rc), rc_s(rd), p, r, ws(wx), ws(wy)), fn='pow', kind='ball', rect='n/a', part=miss_info(r, cb, p)[0], slop=miss_info(r, cb, p)[1])
     acc.sample(['mpci_pow', rc_s(bases[1]), rc_s(exps_[2]), p])
     return acc
 
